@@ -97,14 +97,17 @@ with SqliteImpl.impl_store.impl_manager as impl:
         if not isinstance(decimals, int):
             # a constant expression that is not a literal (e.g. `pdt.lit(1) + 1`): decide in SQL
             scale = sqa.func.POW(10, -decimals)
-            return sqa.case(
+            res = sqa.case(
                 (decimals >= 0, sqa.func.ROUND(x, decimals, type_=x.type)),
                 else_=sqa.func.ROUND(x / scale, type_=x.type) * scale,
             )
-        if decimals >= 0:
-            return sqa.func.ROUND(x, decimals, type_=x.type)
-        # For some reason SQLite doesn't like negative decimals values
-        return sqa.func.ROUND(x / (10**-decimals), type_=x.type) * (10**-decimals)
+        elif decimals >= 0:
+            res = sqa.func.ROUND(x, decimals, type_=x.type)
+        else:
+            # For some reason SQLite doesn't like negative decimals values
+            res = sqa.func.ROUND(x / (10**-decimals), type_=x.type) * (10**-decimals)
+        # SQLite's ROUND always returns a REAL; an integer stays an integer (`//` and `%` on it are integer operations)
+        return sqa.cast(res, x.type) if isinstance(x.type, sqa.Integer) else res
 
     @impl(ops.str_starts_with)
     def _str_starts_with(x, y):
